@@ -177,7 +177,7 @@ theorem xrefObj_ok (d : SDoc) (out : Bytes) (d' : SDoc) (hk : d.xrefKind = .stre
     refine ⟨(WFD_iff d.trailer).mp t1.2 p hp, ?_, (NoRealD_iff d.trailer).mp t3 p hp⟩
     simp only [height] at t2
     exact (heightD_le_iff d.trailer (MAX_NESTING - 1)).mp (by omega) p hp
-  have hsv := streamTrailer_values_ok d hmax hg hclen hvals
+  have hsv := streamTrailer_values_ok [] d hmax hg hclen hvals
   obtain ⟨_, _, _, _, f5⟩ := streamTrailer_facts [] d hnd (.int 0)
   refine ⟨?_, ?_, (NoRealD_iff _).mpr (fun p hp => (hsv p hp).2.2), f5⟩
   · simp only [WFObj, WF]
